@@ -20,7 +20,7 @@ def concLockInstances : List (String × LockId × Bool) := [("_convcoerce._hint_
 
 /-- skeletons of the lock-protected regions (one per public operation / singleton method) -/
 def concProgs : List Prog := [
-  { name := "KeyPool.acquire", acts := [.acq "KeyPool._thread_lock", .rd "KeyPool._key_to_pool", .rel "KeyPool._thread_lock", .wr "KeyPool._key_to_pool", .wr "KeyPool._pool_item_id_to_is_acquired"] },
+  { name := "KeyPool.acquire", acts := [.acq "KeyPool._thread_lock", .rd "KeyPool._key_to_pool", .wr "KeyPool._key_to_pool", .call "self._pool_item_maker", .wr "KeyPool._pool_item_id_to_is_acquired", .rel "KeyPool._thread_lock"] },
   { name := "KeyPool.release", acts := [.acq "KeyPool._thread_lock", .rd "KeyPool._pool_item_id_to_is_acquired", .wr "KeyPool._pool_item_id_to_is_acquired", .wr "KeyPool._key_to_pool", .rel "KeyPool._thread_lock"] },
   { name := "CacheUnboundedStrong.cache_or_get_cached_value", acts := [.acq "CacheUnboundedStrong._lock", .rd "CacheUnboundedStrong._key_to_value", .wr "CacheUnboundedStrong._key_to_value", .rel "CacheUnboundedStrong._lock"] },
   { name := "CacheUnboundedStrong.cache_or_get_cached_func_return_passed_arg", acts := [.acq "CacheUnboundedStrong._lock", .rd "CacheUnboundedStrong._key_to_value", .call "value_factory", .wr "CacheUnboundedStrong._key_to_value", .rel "CacheUnboundedStrong._lock"] },
@@ -35,7 +35,7 @@ def concProgs : List Prog := [
 /-- skeletons of the deliberately lock-free memo sites -/
 def concMemoProgs : List Prog := [
   { name := "callable_cached", acts := [.rd "callable_cached.args_flat_to_exception", .rd "callable_cached.args_flat_to_return_value", .wr "callable_cached.args_flat_to_return_value", .wr "callable_cached.args_flat_to_exception"] },
-  { name := "method_cached_arg_by_id", acts := [.rd "method_cached_arg_by_id.args_flat_to_exception", .rd "method_cached_arg_by_id.args_flat_to_return_value", .wr "method_cached_arg_by_id.args_flat_to_return_value", .wr "method_cached_arg_by_id.args_flat_to_exception"] },
+  { name := "method_cached_arg_by_id", acts := [.rd "method_cached_arg_by_id.args_flat_to_exception", .rd "method_cached_arg_by_id.args_flat_to_return_value", .wr "method_cached_arg_by_id.args_flat_to_args", .wr "method_cached_arg_by_id.args_flat_to_return_value", .wr "method_cached_arg_by_id.args_flat_to_exception"] },
   { name := "beartype_conf_decorator", acts := [.rd "_bear_conf_to_decor", .wr "_bear_conf_to_decor"] }
 ]
 
